@@ -22,7 +22,8 @@ RULE = ('case = (mode generate|verify, layout, damage, hasher threads 1..4, call
         '{uniform, PCT priorities with change points, stall one victim thread, fire timeouts as early as possible} '
         'with its seed); piece counts below/at/above the queue capacity 3*threads; non-trivial = >= 2 hasher '
         'threads or >= 1 timeout fired, and the run has > capacity pieces or a damaged piece; distinct = distinct '
-        '(case, schedule) pairs')
+        '(case, schedule) pairs; plus a slice of the exit-path families of C04 (close() failing in the reader\'s finally '
+        'block, callbacks that cannot be called, intervals of the wrong type; non-trivial = the fault fired)')
 
 MATCHERS = {}
 
@@ -358,6 +359,11 @@ def run(ctx, drv):
     evaluate(ctx, drv, gen_cases(ctx))
     if not ctx.violations:
         evaluate(ctx, drv, gen_cases(ctx, scale=0.08), optimized=True)
+    if not ctx.violations:
+        # "returns ... and leaves no worker thread running" also for the calls that end early: a failing close() in the
+        # reader's finally block, and arguments the collecting thread trips over (C04 owns the full fault enumeration)
+        from harness.sched import exitfaults
+        exitfaults.evaluate(ctx, drv, exitfaults.gen_cases(ctx, slim=True), strict=False, matchers=MATCHERS)
 
 
 def directed_cases(ctx):
@@ -415,6 +421,10 @@ def evaluate_directed(ctx, drv, cases):
 
 def replay(ctx, drv, rp):
     c = dict(rp['case'])
-    evaluate(ctx, drv, [c], optimized=c.pop('python', None) == '-O')
+    from harness.sched import exitfaults
+    if exitfaults.is_exit_case(c):
+        exitfaults.evaluate(ctx, drv, [c], strict=False, matchers=MATCHERS)
+    else:
+        evaluate(ctx, drv, [c], optimized=c.pop('python', None) == '-O')
     return {'fails': bool(ctx.violations or ctx.corr_breaks), 'violations': ctx.violations,
             'corr_breaks': ctx.corr_breaks}
